@@ -188,7 +188,8 @@ fn cmd_run(args: &[String]) {
             inter.push(r.switch_hash);
         }
         // Periodic self-check: the explicit (PRNG-free) plan must reproduce the run exactly.
-        if index % 64 == 0 {
+        if index % 64 == 0 && prop != "C16" {
+            // (C16's own oracle is exactly this comparison; a mismatch there is a verdict, not a harness fault)
             let recs2 = run_case(&expl);
             for (a, b) in recs.iter().zip(&recs2) {
                 if a.trace_hash != b.trace_hash {
@@ -366,7 +367,9 @@ fn cmd_shrink(args: &[String]) {
     let out2 = props::check(prop, &expl, &recs2);
     let same = recs.iter().zip(&recs2).all(|(a, b)| a.trace_hash == b.trace_hash)
         && out.violations == out2.violations;
-    if !same {
+    // For C16 a second execution in the same process is not expected to be identical when
+    // the property is violated (that is the violation); candidates are judged in fresh processes.
+    if !same && prop != "C16" {
         println!("{}", J::obj().set("shrink", "explicit_plan_diverged").to_string());
         std::process::exit(2);
     }
@@ -380,8 +383,19 @@ fn cmd_shrink(args: &[String]) {
     };
     let (min_plans, tried) = shrink::minimise(prop, expl, &target);
     let recs3 = run_case(&min_plans);
-    let out3 = props::check(prop, &min_plans, &recs3);
-    let j = replay_file_json(prop, &min_plans, &out3, &recs3)
+    let mut out3 = props::check(prop, &min_plans, &recs3);
+    if prop == "C16" {
+        // recorded expectation: the kind only (this process has a history by now)
+        out3.violations.retain(|v| v.kind == target);
+        if out3.violations.is_empty() {
+            out3.violations.push(out.violations.iter().find(|v| v.kind == target).unwrap().clone());
+        }
+    }
+    let mut j = replay_file_json(prop, &min_plans, &out3, &recs3);
+    if prop == "C16" {
+        j.put("trace_hashes", Vec::<String>::new());
+    }
+    let j = j
         .set("seed", seed)
         .set("index", index)
         .set("base_seed", base)
